@@ -16,20 +16,20 @@ CHECKS = {
     ),
     "C02": (
         "differential monitor: real translator vs reference encoder, per source line",
-        "About 2 100 instruction shapes (every form x operand shape x register) are each placed after random directive prefixes with forward/backward/mixed-case label references, and seeded random multi-line programs go text -> real parser -> real translator; byte groups per line, reported lines, *STACKSIZE/*PROGRAMSIZE and the image are compared with an independent encoder.",
+        "About 2 100 instruction shapes (every form x operand shape x register) are each placed after random directive prefixes with forward/backward/mixed-case label references, and seeded random multi-line programs go text -> real parser -> real translator; byte groups per line, reported lines, *STACKSIZE/*PROGRAMSIZE and the image are compared with an independent encoder; the image of the text is also compared with the encoding of the program the generator wrote; long sources (260-700 lines) and names that differ only after 11-39 characters are part of the random tier.",
         "Trusted: harness/src/refmodel/asm.rs (instruction table of C02). Programs outside the quantifier (image > 240 bytes, backward .ORG) are not generated here.",
         "DESIGN.md §3 C02",
     ),
     "C03": (
         "generator-knows-the-answer + hand-written recogniser as oracle, catch_unwind for panics",
-        "Grammar-derived programs must parse to exactly the generating AST; a table of directed boundary texts carries hand-written verdicts; single-token mutants and random strings are judged by an independent three-valued recogniser (accept with AST / reject / unspecified). Every input runs under catch_unwind and every error value is rendered.",
+        "Grammar-derived programs (a ninth of them with the grammar's three line terminators mixed) must parse to exactly the generating AST; a table of directed boundary texts (incl. 0-1 000 label definitions) carries hand-written verdicts; single-token mutants and random strings are judged by an independent three-valued recogniser (accept with AST / reject / unspecified). Every input runs under catch_unwind and every error value is rendered.",
         "Trusted: harness/src/refmodel/grammar.rs and the generator harness/src/gen/asmtext.rs; spellings the documentation leaves open are only checked for 'no panic'.",
         "DESIGN.md §3 C03",
     ),
     "C04": (
         "self-differential monitor: interrupted run vs uninterrupted run of the same real machine, every clock cycle as trigger point",
         "For each generated program the uninterrupted run is recorded cycle by cycle; then every cycle (and pairs of cycles in a window) is used as key-interrupt trigger by resuming from the per-cycle snapshot. Entry count, stack contents and IE at entry and the complete final state (registers, flags, SP, PC, outputs, live RAM) are compared. Exhaustive over trigger cycles per program, sampled over programs.",
-        "Trusted: the uninterrupted run (its own correctness is C01's). Requests latched while IE is clear or while another is latched are unspecified: only entries <= triggers and transparency are asserted.",
+        "Trusted: the uninterrupted run (its own correctness is C01's); the enable bit is what the program last stored to 0xF9 according to the edge log. Requests latched while IE is clear or while another is latched are unspecified: only entries <= triggers and transparency are asserted.",
         "DESIGN.md §3 C04",
     ),
     "C05": (
@@ -46,7 +46,7 @@ CHECKS = {
     ),
     "C07": (
         "invariant monitor on hooked state after every prefix of random histories + lock-step comparison with a fresh machine",
-        "Random histories over loads, clock edges in both step modes, interrupts, continue, resets, input and board setters; after every prefix each reset kind is applied to a clone and the documented post-state is checked field by field (getters + snapshot hooks); a follow-up program is loaded and run cycle for cycle against a newly created machine.",
+        "Random histories over loads, clock edges in both step modes, interrupts, continue, resets, input and board setters; after every prefix each reset kind is applied to a clone and the documented post-state is checked field by field (getters + snapshot hooks); a follow-up program is loaded and run cycle for cycle against a newly created machine; reset clones are also paired with a new Machine given a copy of their RawMachine and must react alike to 24 clock keys (state outside what a reset restores).",
         "Trusted: the list of power-on values in DESIGN.md §3 C07. MISR/USR/UART data and board status bits are not asserted.",
         "DESIGN.md §3 C07",
     ),
@@ -58,7 +58,7 @@ CHECKS = {
     ),
     "C09": (
         "control-flow graph extracted through the real next-address code (forced states, one real clock edge each) + offline graph checker; concrete loop runs",
-        "All 512 micro-addresses x 256 IR values x 16 flag nibbles x 6 ALU condition outcomes x pending interrupt (and all 256 loaded bytes at opcode-loading words) are forced on the real machine; the successor graph is checked for zero words, cycles, completion of exactly the defined first bytes and defined second bytes, and routine containment; MUL and DIV run concretely for all 65 536 operand pairs. Exhaustive.",
+        "All 512 micro-addresses x 256 IR values x 16 flag nibbles x 6 ALU condition outcomes x pending interrupt (and all 256 loaded bytes at opcode-loading words) are forced on the real machine; the start node after CPU reset, master reset and load must be one and the same from about 19 000 forced states; the successor graph is checked for zero words, cycles, completion of exactly the defined first bytes and defined second bytes, and routine containment; MUL and DIV run concretely for all 65 536 operand pairs. Exhaustive.",
         "Trusted: hook verif_force_control; only the successor function is abstracted.",
         "DESIGN.md §3 C09",
     ),
@@ -76,13 +76,13 @@ CHECKS = {
     ),
     "C12": (
         "reference-loop monitor: harness steps the documented loop itself and compares full machine equality; CLI stdout/exit status checked at process level",
-        "Generated programs x budgets (0, 1, around the halting cycle, random) x interrupt/reset multisets x configurations: RunnerConfig::run() vs the harness's stepping (Machine ==, cycle count); verify() over all 8 subsets x match/mismatch; the real binary with arguments in all three radices: printed values and exit status.",
+        "Generated programs x budgets (0, 1, around the halting cycle, random) x interrupt/reset multisets x configurations: RunnerConfig::run() vs the harness's stepping of a machine configured through the single setters (Machine ==, cycle count); verify() over all 8 subsets x match/mismatch; the real binary with arguments in all three radices: printed values and exit status; voltages incl. NaN and infinity.",
         "Trusted: the real parser/translator to obtain the byte code (C02/C03). Interrupt before reset when both fall on one cycle.",
         "DESIGN.md §3 C12",
     ),
     "C13": (
         "crash monitor: catch_unwind + clock-edge fuel around random interleavings; post-run liveness probes",
-        "RAM images (uniform, opcode-biased, I/O-biased, constant fills) x 5 stack sizes x limits x stimulus schedules incl. NaN/inf voltages, every call under catch_unwind in the overflow-checking profile; afterwards all getters, all bus reads and decoders are exercised and the machine stepped on; direct bus writes/reads of every address x value.",
+        "RAM images (uniform, opcode-biased, I/O-biased, constant fills) x 5 stack sizes x limits x stimulus schedules incl. NaN/inf voltages, every call under catch_unwind in the overflow-checking profile; afterwards all getters, all bus reads and decoders are exercised and the machine stepped on; direct bus writes/reads of every address x value; long runs (70 000-140 000 edges) after arbitrary stores to the interrupt mask, timer and board registers.",
         "Sanitizers/Miri are not used: the repository has no unsafe code, threads or FFI (DESIGN.md §0).",
         "DESIGN.md §3 C13",
     ),
@@ -100,7 +100,7 @@ CHECKS = {
     ),
     "C17": (
         "headless driver of the real Tui in a child process (hook H5) + line-editor model, documented command grammar (three-valued) and shadow Machine driven by the library calls",
-        "All key scripts up to length 3 over a 24-key alphabet, seeded random scripts up to 200 keys (multi-byte/wide characters, editing keys, chords, documented / must-reject / hostile command lines, load of fixtures) at random terminal sizes with resizes, and every terminal size 1x1..250x100; after every key: no panic in event handling or drawing, cursor inside the text, editor state, history, notification, quit flag, UI flags and the complete machine dump compared with the models.",
+        "All key scripts up to length 3 over a 24-key alphabet, seeded random scripts up to 200 keys (multi-byte/wide characters, editing keys, chords, documented / must-reject / hostile command lines, load of fixtures) at random terminal sizes with resizes, session scripts (load, clock keys, chords, `next N` up to beyond 65 535, history recall), history walks past both ends, cursor walks over lines as wide as the input field, lines beyond 1 024 characters, and every terminal size 1x1..250x100; after every key: no panic in event handling or drawing, cursor inside the text, editor state, history, notification, quit flag, UI flags and the complete machine dump compared with the models.",
         "Trusted: harness/src/refmodel/cmd.rs (documented command grammar), the editor model in mon/c17.rs, hook H5 (driver bypasses the crossterm backend; auto-run = 10 cycles per frame).",
         "DESIGN.md §3 C17",
     ),
